@@ -83,6 +83,16 @@ func main() {
 		stdout := os.Stdout
 		setupWorkerProcess()
 		o := execOne(chk, c)
+		if len(os.Args) > 5 {
+			wantSig = os.Args[5]
+			var keep []core.Violation
+			for _, v := range o.Violations {
+				if v.Sig == wantSig {
+					keep = append(keep, v)
+				}
+			}
+			o.Violations = keep
+		}
 		if len(o.Violations) == 0 {
 			fmt.Fprintln(stdout, "no violation; inconclusive:", o.Inconclusive)
 			os.Exit(0)
@@ -92,6 +102,9 @@ func main() {
 		b, _ := json.Marshal(c)
 		os.WriteFile(in, b, 0o644)
 		outp := filepath.Join(verifDir, "replays", fmt.Sprintf("%s-run%d.min.json", chk.ID(), r))
+		if o := os.Getenv("VGWSIM_SHRINK_OUT"); o != "" {
+			outp = o
+		}
 		os.MkdirAll(filepath.Dir(outp), 0o755)
 		rc := minimiseMain([]string{in, outp, o.Violations[0].Class})
 		mb, _ := os.ReadFile(outp)
@@ -283,12 +296,15 @@ func replayMain(args []string) int {
 
 // ------------------------------------------------------------------ minimise
 
+// wantSig, when set, makes minimisation preserve the exact signature, not only the class.
+var wantSig string
+
 func hasClass(o *core.Outcome, class string) *core.Violation {
 	if o.Inconclusive != "" {
 		return nil
 	}
 	for i := range o.Violations {
-		if o.Violations[i].Class == class {
+		if o.Violations[i].Class == class && (wantSig == "" || o.Violations[i].Sig == wantSig) {
 			return &o.Violations[i]
 		}
 	}
@@ -318,6 +334,16 @@ func minimiseMain(args []string) int {
 		return 3
 	}
 	tried := 0
+	// make the schedule explicit: a recorded decision list replaces the seeded policy
+	if cur.Sched.Policy != "" && cur.Sched.Policy != "replay" && cur.Sched.Policy != "seq" && len(o.Recorded) > 0 {
+		cand := cur.Clone()
+		cand.Sched.Policy = "replay"
+		cand.Sched.Plan = o.Recorded
+		co := execOne(chk, cand)
+		if cv := hasClass(co, class); cv != nil {
+			cur, o, v = cand, co, cv
+		}
+	}
 outer:
 	for time.Since(start) < budget {
 		for _, cand := range chk.Shrink(cur) {
